@@ -202,7 +202,9 @@ def run_world_property(out, binp, pid, pred, profiles, facets, sig, extra_head="
         if code >= 100 and code not in range(151, 159):
             s = sig(st, code)
             viol.setdefault(s, (h, si, code))
-        elif code in facets and si == first_mis.get(hid):
+        elif code in facets:
+            # after any mismatch the checker continues from the implementation's own state (resync), so a
+            # later mismatch on a facet of this property's projection is a deviation in its own right
             mism.append((h, si, code))
         else:
             ignored += 1
@@ -245,7 +247,7 @@ def run_world_property(out, binp, pid, pred, profiles, facets, sig, extra_head="
         input_distribution=dict(sorted(routes.items(), key=lambda kv: -kv[1])),
         profiles=[p[0] for p in profiles],
         facets_compared=sorted(facets),
-        steps_truncated_by_other_facets=ignored,
+        mismatches_on_facets_outside_the_projection=ignored,
         traces_validated_against_impl=len(all_h),
     )
     return all_h
